@@ -156,7 +156,10 @@ def texts(maxlen):
 
 
 TOKENS = ["a", "b1", " ", "\t", "\n", "/", "*", "//c", "/*c*/", "/* m\nl */", '"s"', '"a//b"', '"/*"', "'c'", "'\\''", "'\"'",
-          "\\\n", "#", "#define X 1", "#if A \\\n && B", "+", '"q\\"r"', "/*'*/", '//"', "  ", "/", "/\\\n/ c", "/\\\n* c */"]
+          "\\\n", "#", "#define X 1", "#if A \\\n && B", "+", '"q\\"r"', "/*'*/", '//"', "  ", "/", "/\\\n/ c", "/\\\n* c */",
+          # a line INSIDE a block comment that ends in "*" (the cleaner is then in its found-a-star sub-state at the line end),
+          # alone and after code / a directive on the same logical line
+          "/* m *\n l */", "/**\n*/", "#define F /* x *\n y */ 1", "a /* x *\n*/ b", "/* x **\n/ y */"]
 
 
 def random_texts(rng, n):
